@@ -6,6 +6,7 @@ import PygModel.Lift
 import PygModel.Zip
 import PygModel.Waiter
 import PygProofs.Lemmas.LiftLemmas
+import PygProofs.Lemmas.ZipLemmas
 
 namespace Pyg.Props.C19
 open Pyg
@@ -316,7 +317,165 @@ example :
 example : wrapped recorder (.list [.cell (.int 1), .cell (.str "!v")]) [] [] = .error .value := by
   decide +kernel
 
+
+/-! ## zipper, lens, as_list, as_tuple
+
+`items v` is what `zip` iterates over: the elements of a list/tuple, the keys of a dict, and `[v]` for a scalar
+or string — so scalars count as length-1 sequences. -/
+
+/-- **zipper zips equal-length sequences and broadcasts scalars and length-1 sequences**: if every argument
+has length `n` or 1 (`n` being the length of some argument, or 1), the result is the `n` rows whose `j`-th
+entry is the `i`-th element of argument `j`, or its only element. -/
+theorem zipper_spec (vs : List Val) (n : Nat) (hne : vs ≠ [])
+    (hall : ∀ v ∈ vs, (items v).length = n ∨ (items v).length = 1)
+    (hn : n = 1 ∨ ∃ v ∈ vs, (items v).length = n) :
+    zipper vs = .ok ((List.range n).map fun i => .tuple (vs.map fun v =>
+      if (items v).length = 1 then (items v).getD 0 (.cell .none)
+      else (items v).getD i (.cell .none))) := by
+  have hl : lensOf ((vs.map items).map List.length) = .ok n := by
+    apply lensOf_ok
+    · simpa using hne
+    · intro l hl
+      simp only [List.map_map, List.mem_map, Function.comp] at hl
+      obtain ⟨v, hv, rfl⟩ := hl
+      exact hall v hv
+    · rcases hn with h | ⟨v, hv, h⟩
+      · exact Or.inl h
+      · refine Or.inr ?_
+        simp only [List.map_map, List.mem_map, Function.comp]
+        exact ⟨v, hv, h⟩
+  unfold zipper
+  simp only [hl]
+  by_cases h1 : n > 1
+  · simp only [h1, ↓reduceIte, zipN]
+    have hm : minLen ((vs.map items).map (bcast n)) = n := by
+      apply minLen_eq
+      · simpa using hne
+      · intro c hc
+        simp only [List.map_map, List.mem_map, Function.comp] at hc
+        obtain ⟨v, hv, rfl⟩ := hc
+        exact bcast_length n _ (hall v hv)
+    rw [hm, List.map_map]
+    congr 1
+    apply List.map_congr_left
+    intro i hi
+    have hi' : i < n := by simpa using hi
+    simp only [Function.comp, List.map_map, Val.tuple.injEq]
+    apply List.map_congr_left
+    intro v _
+    simp only [Function.comp]
+    exact bcast_getD n i hi' (items v) _
+  · simp only [h1, ↓reduceIte, zipN]
+    have hn01 : n = 0 ∨ n = 1 := by omega
+    rcases hn01 with h0 | h1'
+    · subst h0
+      have : minLen (vs.map items) = 0 := by
+        rcases hn with h | ⟨v, hv, h⟩
+        · cases h
+        · have := minLen_le (vs.map items) (items v) (List.mem_map.2 ⟨v, hv, rfl⟩)
+          omega
+      simp [this]
+    · subst h1'
+      have hm : minLen (vs.map items) = 1 := by
+        apply minLen_eq
+        · simpa using hne
+        · intro c hc
+          obtain ⟨v, hv, rfl⟩ := List.mem_map.1 hc
+          rcases hall v hv with h | h <;> exact h
+      rw [hm, List.map_map]
+      congr 1
+      apply List.map_congr_left
+      intro i hi
+      have hi' : i = 0 := by simpa using hi
+      subst hi'
+      simp only [Function.comp, List.map_map, Val.tuple.injEq]
+      apply List.map_congr_left
+      intro v _
+      simp
+
+/-- **zipper raises ValueError exactly when two arguments have different lengths neither of which is 1**
+(and it raises nothing else). -/
+theorem zipper_raises_iff (vs : List Val) (e : Err) :
+    zipper vs = .error e ↔ e = .value ∧ ∃ a ∈ vs, ∃ b ∈ vs,
+      (items a).length ≠ (items b).length ∧ (items a).length ≠ 1 ∧ (items b).length ≠ 1 := by
+  have key := lensOf_error_iff ((vs.map items).map List.length) e
+  have hz : zipper vs = .error e ↔ lensOf ((vs.map items).map List.length) = .error e := by
+    cases hr : lensOf ((vs.map items).map List.length) with
+    | error e' => simp only [zipper, hr]; constructor <;> (intro h; cases h; rfl)
+    | ok n => simp only [zipper, hr]; simp
+  rw [hz, key]
+  constructor
+  · rintro ⟨he, a, ha, b, hb, h⟩
+    simp only [List.map_map, List.mem_map, Function.comp] at ha hb
+    obtain ⟨va, hva, rfl⟩ := ha
+    obtain ⟨vb, hvb, rfl⟩ := hb
+    exact ⟨he, va, hva, vb, hvb, h⟩
+  · rintro ⟨he, a, ha, b, hb, h⟩
+    refine ⟨he, (items a).length, ?_, (items b).length, ?_, h⟩ <;>
+      simp only [List.map_map, List.mem_map, Function.comp]
+    · exact ⟨a, ha, rfl⟩
+    · exact ⟨b, hb, rfl⟩
+
+/-- `zipper()` is empty; `lens()` is 0 -/
+theorem zipper_nil : zipper [] = .ok [] ∧ lens [] = .ok 0 := by decide +kernel
+
+/-- `lens` of sequences that all have length `n` or 1 is `n`; `lens` raises under the same condition as
+`zipper` (on `len0`: here scalars and strings count 0) -/
+theorem lens_spec (vs : List Val) (n : Nat) (hne : vs ≠ []) (hall : ∀ v ∈ vs, len0 v = n ∨ len0 v = 1)
+    (hn : n = 1 ∨ ∃ v ∈ vs, len0 v = n) : lens vs = .ok n := by
+  apply lensOf_ok
+  · simpa using hne
+  · intro l hl
+    obtain ⟨v, hv, rfl⟩ := List.mem_map.1 hl
+    exact hall v hv
+  · rcases hn with h | ⟨v, hv, h⟩
+    · exact Or.inl h
+    · exact Or.inr (List.mem_map.2 ⟨v, hv, h⟩)
+
+/-- hypotheses of `zipper_spec` on `zipper([1,2,3], [4], 'ab', (5,6,7))` -/
+example : zipper [.list [.cell (.int 1), .cell (.int 2), .cell (.int 3)], .list [.cell (.int 4)],
+      .cell (.str "ab"), .tuple [.cell (.int 5), .cell (.int 6), .cell (.int 7)]] =
+    .ok [.tuple [.cell (.int 1), .cell (.int 4), .cell (.str "ab"), .cell (.int 5)],
+         .tuple [.cell (.int 2), .cell (.int 4), .cell (.str "ab"), .cell (.int 6)],
+         .tuple [.cell (.int 3), .cell (.int 4), .cell (.str "ab"), .cell (.int 7)]] := by
+  decide +kernel
+
+example : zipper [.list [.cell (.int 1), .cell (.int 2), .cell (.int 3)],
+    .list [.cell (.int 4), .cell (.int 5)]] = .error .value := by decide +kernel
+
 /-- `as_list` is an idempotent normaliser -/
 theorem as_list_idem (v : Val) : asList (.list (asList v)) = asList v := rfl
+
+/-- `as_tuple` applied twice equals `as_tuple` applied once exactly when the first result is not a 1-tuple
+holding a list … -/
+theorem as_tuple_idem_iff (v : Val) :
+    asTuple (.tuple (asTuple v)) = asTuple v ↔ ∀ xs, asTuple v ≠ [.list xs] := by
+  constructor
+  · intro h xs hx
+    rw [hx] at h
+    simp only [asTuple] at h
+    have := congrArg sizeOf h
+    simp at this
+    omega
+  · intro h
+    generalize asTuple v = ys at h
+    match ys, h with
+    | [], _ => rfl
+    | [.list xs], h => exact absurd rfl (h xs)
+    | [.cell _], _ | [.tuple _], _ | [.dict _], _ => rfl
+    | a :: _ :: _, _ => cases a <;> rfl
+
+/-- … so `as_tuple` is NOT an idempotent normaliser (finding K2): `as_tuple([[1,2]]) = ([1,2],)` and
+`as_tuple(([1,2],)) = (1,2)`.  The clause of the property is false of the code; this is the witness. -/
+theorem as_tuple_not_idem :
+    ∃ v, asTuple (.tuple (asTuple v)) ≠ asTuple v :=
+  ⟨.list [.list [.cell (.int 1), .cell (.int 2)]], by decide +kernel⟩
+
+/-- it is idempotent on everything that is not a list holding exactly one list (or a 1-tuple of such) -/
+theorem as_tuple_idem_partial (v : Val) (h : ∀ xs, asTuple v ≠ [.list xs]) :
+    asTuple (.tuple (asTuple v)) = asTuple v := (as_tuple_idem_iff v).2 h
+
+example : ∀ xs, asTuple (.tuple [.cell (.int 1), .list [.cell (.int 2)]]) ≠ [.list xs] := by
+  intro xs h; simp [asTuple] at h
 
 end Pyg.Props.C19
